@@ -1,6 +1,7 @@
 package ecs
 
 import (
+	"fmt"
 	"math"
 	"reflect"
 
@@ -164,6 +165,14 @@ func (a *archetype) GetTable(storage *storage, relations []relationID) (*table, 
 func (a *archetype) getTableSlowPath(storage *storage, relations []relationID) (*table, bool) {
 	if uint8(len(relations)) < a.numRelations {
 		panic("relation targets must be fully specified")
+	}
+	// A relation component named twice would satisfy the count check while another one is missing.
+	for i := 1; i < len(relations); i++ {
+		for j := 0; j < i; j++ {
+			if relations[i].component.id == relations[j].component.id {
+				panic(fmt.Sprintf("relation component %d specified more than once", relations[i].component.id))
+			}
+		}
 	}
 	index := a.componentsMap[relations[0].component.id]
 	tables, ok := a.relationTables[index][relations[0].target.id]
